@@ -228,11 +228,13 @@ pub struct Matrix {
     pub nr: usize,
     /// cells[b * nl + a] is the cost for line "a b cost"
     pub cells: Vec<i16>,
+    /// the text lists only the non-zero cells (cells that are not listed cost 0), last line first
+    pub sparse: bool,
 }
 
 impl Matrix {
     pub fn new(nl: usize, nr: usize) -> Matrix {
-        Matrix { nl, nr, cells: vec![0; nl * nr] }
+        Matrix { nl, nr, cells: vec![0; nl * nr], sparse: false }
     }
 
     /// connection cost between a word with right id `prev_right` followed by a word with left id `next_left`
@@ -246,6 +248,16 @@ impl Matrix {
 
     pub fn to_text(&self) -> String {
         let mut s = format!("{} {}\n", self.nl, self.nr);
+        if self.sparse {
+            for a in (0..self.nl).rev() {
+                for b in (0..self.nr).rev() {
+                    if self.cost(a, b) != 0 {
+                        s.push_str(&format!("{} {} {}\n", a, b, self.cost(a, b)));
+                    }
+                }
+            }
+            return s;
+        }
         for a in 0..self.nl {
             for b in 0..self.nr {
                 s.push_str(&format!("{} {} {}\n", a, b, self.cost(a, b)));
